@@ -40,6 +40,19 @@ def insideOk (n : Net) (o : Owned) (p : Nat) : Bool :=
 
 def inOwned (d : Desc) (p : Nat) : Bool := d.owned.any fun o => o.lo ≤ p && p < o.hi
 
+/-- the points at which the decider evaluates the address map for one owned interval -/
+def pointsIn (d : Desc) (n : Net) (o : Owned) : List Nat :=
+  o.lo :: (thresholds n d).filter (fun t => o.lo ≤ t && t < o.hi)
+
+/-- … and outside every owned interval -/
+def pointsOut (d : Desc) (n : Net) : List Nat :=
+  (thresholds n d).filter fun t => t < 2 ^ n.aw && !inOwned d t
+
+/-- **the decision**: finitely many evaluations of the hardware's address decoder -/
+def holds (d : Desc) (n : Net) : Bool :=
+  (d.owned.all fun o => decide (o.hi ≤ 2 ^ n.aw) && (pointsIn d n o).all (insideOk n o)) &&
+  ((pointsOut d n).all fun p => (samMatching n p).isEmpty)
+
 def check (d : Desc) (n : Net) : List Finding :=
   let ts := thresholds n d
   let inside := d.owned.flatMap fun o =>
